@@ -12,9 +12,34 @@ V = "cglue::vec::"
 FIELDS = ("data", "len", "capacity")
 
 
+LOCAL_FNS = {}
+UNSIGNED = ("len0", "index", "additional", "capacity0")
+
+
+def inline_getter(px, p, args):
+    """Calls of small accessor functions of vec.rs (`len()`, `is_empty()`, `capacity()`, `as_ptr()` ...: one path, no calls) are executed
+    in place on the caller's symbolic state, so `self.is_empty()` reads as `len == 0`."""
+    fn = LOCAL_FNS.get(p)
+    if fn is None or not args or args[0] != ("selfref",):
+        return None
+    body = mir.Body(fn)
+    paths = body.paths_to_return()
+    if len(paths) != 1 or any(body.blocks[b]["t"]["k"] == "call" for b in paths[0]):
+        return None
+    sub = affine.PathExec(body, paths[0], FIELDS, {})
+    sub.fields = dict(px.fields)
+    sub.run(lambda *_: Opaque("call"))
+    if sub.fields != px.fields:
+        return None
+    return (sub.env.get(0, Opaque("ret")),)
+
+
 def mk_on_call(events):
     def on_call(px, t, args):
         p = mir.callee_res(t) or mir.callee_path(t) or "<indirect>"
+        got = inline_getter(px, p, args)
+        if got is not None:
+            return got[0]
         if p == V + "CVec::<T>::reserve":
             events.append(("reserve", args[1]))
             px.bump_self(("data", "capacity"))
@@ -57,8 +82,9 @@ def run_op(fn, arg_syms):
     return body, out
 
 
-def guard_has(guards, op, lhs, rhs, truth=True):
-    return any(g[0] == op and g[1] == lhs and g[2] == rhs and g[3] == truth for g in guards if len(g) == 4 and isinstance(g[1], Aff))
+def guard_has(guards, kind, expr):
+    """`guards` of one path, canonicalised: a <= b, !(a > b), b >= a ... are the same guard (affine.canon_guard)."""
+    return (kind, expr) in affine.canon_guards(guards, UNSIGNED)
 
 
 def run(tier):
@@ -66,6 +92,8 @@ def run(tier):
     f = facts.cfg_cglue()
     ck.unit("cglue lib: vec.rs")
     fns = {x["path"]: x for x in f.fns("cglue-lib") if "/vec.rs" in x["span"]}
+    LOCAL_FNS.clear()
+    LOCAL_FNS.update(fns)
     ck.floor("functions in vec.rs", len(fns), 22)
     d0, l0, i = Aff.sym("data0"), Aff.sym("len0"), Aff.sym("index")
     d1 = Aff.sym("data1")
@@ -95,9 +123,9 @@ def run(tier):
         ok = len(runs) == 2
         seen_none = seen_some = False
         for path, ev, guards, fields, sets, px in runs:
-            if guard_has(guards, "Eq", l0, Aff.const(0), True):
+            if guard_has(guards, "eq0", l0):
                 seen_none = not ev and fields["len"] == l0
-            elif guard_has(guards, "Eq", l0, Aff.const(0), False):
+            elif guard_has(guards, "ne0", l0):
                 seen_some = [e[0] for e in ev] == ["read"] and ev[0][1] == d0 + l0 - one and fields["len"] == l0 - one
         ck.ob("A-pop-summary", "cglue/CVec::pop", ok and seen_none and seen_some,
               "pop must return None untouched iff len == 0, else set len = len-1 and read the element at data+len-1: %s" % [(r[1], r[3]["len"]) for r in runs],
@@ -111,7 +139,7 @@ def run(tier):
         if ok:
             path, ev, guards, fields, sets, px = runs[0]
             kinds = [e[0] for e in ev]
-            okg = guard_has(guards, "Le", i, l0, True)
+            okg = guard_has(guards, "ge0", l0 - i)
             ok = okg and kinds == ["reserve", "copy", "write"] and ev[0][1] == one \
                 and ev[1][1] == d1 + i and ev[1][2] == d1 + i + one and ev[1][3] == l0 - i and ev[1][4] == "copy" \
                 and ev[2][1] == d1 + i and ev[2][2] == Aff.sym("element") and fields["len"] == l0 + one
@@ -132,7 +160,7 @@ def run(tier):
         if ok:
             path, ev, guards, fields, sets, px = runs[0]
             kinds = [e[0] for e in ev]
-            okg = guard_has(guards, "Lt", i, l0, True)
+            okg = guard_has(guards, "ge0", l0 - i - one)
             ok = okg and kinds == ["read", "copy"] and ev[0][1] == d0 + i and ev[1][1] == d0 + i + one and ev[1][2] == d0 + i and ev[1][3] == l0 - i - one and ev[1][4] == "copy" \
                 and fields["len"] == l0 - one
             ret = px.env.get(0)
@@ -144,23 +172,27 @@ def run(tier):
     # ---- reserve: grows through the stored function iff spare capacity is insufficient ------------------------------------
     fn = need("reserve")
     if fn:
-        body = mir.Body(fn)
-        ic = [(bi, t) for bi, t in body.calls() if t.get("callee") is None]
-        sws = mir.discr_switches(body)
-        ok = len(ic) == 1 and len(sws) == 1
-        if ok:
-            so = mir.deepstrip(sws[0][1])
-            # Lt(capacity - len, additional)
-            lhs = so[2] if so[0] == "bin" else None
-            if lhs and lhs[0] == "field" and lhs[2] == "0":
-                lhs = lhs[1]
-            ok = so[0] == "bin" and so[1] in ("Lt", "Le") and so[3] == ("arg", 2) and lhs[0] == "bin" and lhs[1].startswith("Sub") \
-                and lhs[2] == ("field", ("arg", 1), "capacity") and lhs[3] == ("field", ("arg", 1), "len")
-            t = ic[0][1]
-            fo = mir.deepstrip(body.origin_operand(t["f"]))
-            a0, a1 = mir.deepstrip(body.origin_operand(t["args"][0])), mir.deepstrip(body.origin_operand(t["args"][1]))
-            true_b = mir.dominated(body, sws[0][3]) if 0 in sws[0][2] else set()
-            ok = ok and fo == ("field", ("arg", 1), "reserve_fn") and a0 == ("arg", 1) and a1 == ("arg", 2) and ic[0][0] in true_b
+        body, runs = run_op(fn, {2: "additional"})
+        c0, add = Aff.sym("capacity0"), Aff.sym("additional")
+        ok = len(runs) == 2
+        grow = keep = False
+        for path, ev, guards, fields, sets, px in runs:
+            ics = [b for b in path if body.blocks[b]["t"]["k"] == "call" and body.blocks[b]["t"].get("callee") is None]
+            others = [e for e in ev if not (e[0] == "call" and e[1] == "<indirect>")]
+            if others:
+                ok = False
+            if len(ics) == 1:
+                t = body.blocks[ics[0]]["t"]
+                fo = mir.deepstrip(body.origin_operand(t["f"]))
+                a0, a1 = mir.deepstrip(body.origin_operand(t["args"][0])), mir.deepstrip(body.origin_operand(t["args"][1]))
+                # grows exactly when the spare capacity is insufficient: capacity - len < additional (`<=` only grows earlier)
+                cond = guard_has(guards, "ge0", add - (c0 - l0) - one) or guard_has(guards, "ge0", add - (c0 - l0))
+                grow = fo == ("field", ("arg", 1), "reserve_fn") and a0 == ("arg", 1) and a1 == ("arg", 2) and cond
+            elif not ics:
+                keep = guard_has(guards, "ge0", (c0 - l0) - add) or guard_has(guards, "ge0", (c0 - l0) - add - one)
+            else:
+                ok = False
+        ok = ok and grow and keep
         ck.ob("R-reserve-through-stored-fn", "cglue/CVec::reserve", ok, "reserve must call its own reserve_fn(self, additional) whenever capacity - len < additional")
     # ---- stored functions: raw parts in order ------------------------------------------------------------------------------------
     dp = fns.get("<cglue::vec::CVec<T> as std::ops::Drop>::drop")
@@ -204,8 +236,15 @@ def run(tier):
         ok = ret[0] == "agg"
         if ok:
             ops = dict(zip(ret[3], ret[4]))
+            def the_vec(o):
+                # the argument itself, possibly wrapped in ManuallyDrop and reached through its Deref
+                o = mir.deepstrip(o)
+                while o[0] == "call" and (o[1] in ("std::ops::Deref::deref", "std::ops::DerefMut::deref_mut") or o[1].endswith("ManuallyDrop::<T>::new")):
+                    o = mir.deepstrip(o[2][0])
+                return o == ("arg", 1)
+
             def getter(o):
-                return o[1].split("::")[-1] if o[0] == "call" and mir.deepstrip(o[2][0]) == ("arg", 1) else None
+                return o[1].split("::")[-1] if o[0] == "call" and the_vec(o[2][0]) else None
             fnc = lambda o: (o[4][0] if o[0] == "agg" and o[2] == "Some" else o)
             dfn, rfn = fnc(ops["drop_fn"]), ops["reserve_fn"]
             while dfn[0] == "cast":
@@ -215,7 +254,8 @@ def run(tier):
             ok = getter(ops["data"]) == "as_mut_ptr" and getter(ops["len"]) == "len" and getter(ops["capacity"]) == "capacity" \
                 and dfn[0] == "fnconst" and dfn[1] == V + "cglue_drop_vec" and rfn[0] == "fnconst" and rfn[1] == V + "cglue_reserve_vec"
             sites = ledger.prim_sites(body)
-            ok = ok and [s.kind for s in sites] == ["forget"] and body.origin_operand(sites[0].term["args"][0]) == ("arg", 1)
+            # the vector's own destructor is disarmed exactly once: mem::forget(vec) or ManuallyDrop::new(vec)
+            ok = ok and [s.kind for s in sites] in (["forget"], ["manuallydrop_new"]) and body.origin_operand(sites[0].term["args"][0]) == ("arg", 1)
         ck.ob("R-from-vec-captures-raw-parts", "cglue/CVec::from(Vec)", ok, "From<Vec> must store as_mut_ptr/len/capacity of the vector, its drop and reserve functions, and forget the vector")
     rv = fns.get(V + "cglue_reserve_vec")
     if ck.require(rv is not None, "cglue_reserve_vec"):
